@@ -44,3 +44,14 @@ SPEC = dict(
     assumptions=["avahi_* switches (regenerated from mdns/avahi.go) select the control structure the model follows",
                  "one sequential API caller, Shutdown last; initial state after a successful Start(true, cb)"],
 )
+
+# through the manager: the calls an application makes (AnnounceMdnsEntry / UnannounceMdnsEntry / SetAutoAccept on the real
+# mdns.MdnsManager) over the real AvahiProvider and the scripted daemon; expectation = a function of the calls alone (AvahiMgr.v)
+SPEC.setdefault("streams", [])
+SPEC["streams"] += [dict(imports="From Ship Require Import Base AvahiMgr.", case_type="gcase", check_fn="check_mgr",
+                         drivers=[dict(bin="avahidrv", args=["-prop", "C19mgr"], n_quick=120, n_thorough=3000, timeout=1800)],
+                         codes={160: "manager_call_hangs_or_panics", 161: "announced_although_unannounced", 162: "not_announced_although_requested",
+                                163: "announced_with_stale_txt", 164: "several_live_announcements"})]
+SPEC["manifest"]["text"] += (" Second stream, through the manager: AnnounceMdnsEntry / UnannounceMdnsEntry / SetAutoAccept on the real mdns.MdnsManager over the real "
+    "AvahiProvider and the scripted daemon (outages in three failure modes, calls before, during and after them); at rest the committed entry groups the daemon holds must be "
+    "exactly one with register=<last auto-accept value> if the last of announce/unannounce was an announce, none otherwise - a function of the calls alone (AvahiMgr.v).")
